@@ -11,6 +11,7 @@
 """
 from __future__ import annotations
 
+import os
 import itertools
 import math
 import sys
@@ -151,11 +152,16 @@ def algebra_task(task, tr):
         for c in range(3):
             for k in range(K):
                 for i in range(S):
+                    # dyadic rationals: the row sums to exactly 1 in every summation order (plain float division does
+                    # not for S = 4, and the engine checks the witness against the domain exactly)
                     tot = sum(W[f'P[{c},{k},{i},{j}]'] for j in range(S))
-                    for j in range(S):
-                        W[f'P[{c},{k},{i},{j}]'] /= tot
-    ex = Explorer(W, domain, body, tr, max_regions=60, timeout=40.0, closure_timeout=20.0, label=label,
-                  check_defined=False, deadline=time.time() + 600, require_closure=False)
+                    acc = 0.0
+                    for j in range(S - 1):
+                        W[f'P[{c},{k},{i},{j}]'] = round(W[f'P[{c},{k},{i},{j}]'] / tot * 2 ** 20) / 2 ** 20
+                        acc += W[f'P[{c},{k},{i},{j}]']
+                    W[f'P[{c},{k},{i},{S - 1}]'] = 1.0 - acc
+    ex = Explorer(W, domain, body, tr, max_regions=60, timeout=40.0 * TSCALE, closure_timeout=20.0, label=label,
+                  check_defined=False, deadline=time.time() + 600 * TSCALE, require_closure=False)
     out = ex.run()
     tr.bounds['algebra'] = '3 taxa, S in {2,4}, K<=2, N<=2, weights 1; regions = which entry is the per-node maximum'
     for s in out.region_samples[:1]:
@@ -277,8 +283,8 @@ def history_task(task, tr):
         return [d.lt(0, i) for i in V.values()]
 
     tr.stubs.add('history part: transition matrices are fresh positive variables, functional in the branch argument')
-    ex = Explorer(W, domain, body, tr, max_regions=40, timeout=30.0, closure_timeout=20.0, label=label,
-                  check_defined=False, deadline=time.time() + 900, require_closure=False)
+    ex = Explorer(W, domain, body, tr, max_regions=40, timeout=30.0 * TSCALE, closure_timeout=20.0, label=label,
+                  check_defined=False, deadline=time.time() + 900 * TSCALE, require_closure=False)
     out = ex.run()
     tr.bounds['history'] = 'histories of <= 2 (quick) / 3 (thorough) evaluations with a parameter update before each, every oracle verdict sequence, shapes [] and [2]; 3 taxa, 2 states, 2 site patterns'
     for s in out.region_samples[:1]:
@@ -558,6 +564,11 @@ def rescaled_api_confirmation(tip_states, n=700):
 
 def run_task(task, tr):
     {'algebra': algebra_task, 'history': history_task, 'fp': fp_task, 'fpscalers': fpscalers_task}[task[0]](task, tr)
+
+
+# the thorough tier keeps ~35 tasks x 3 solver processes busy on 16 cores: wall-clock solver budgets are scaled so
+# that contention does not turn decidable goals into 'unknown'
+TSCALE = 4.0 if os.environ.get('VERIF_TIER') == 'thorough' else 1.0
 
 
 def tasks_for(tier):
